@@ -6,7 +6,6 @@ which turns repository exceptions into values.
 from __future__ import annotations
 
 import contextlib
-import copy
 import logging
 import multiprocessing
 import os
@@ -121,7 +120,7 @@ def normalise_message(msg: str) -> str:
         if new == msg:
             break
         msg = new
-    msg = _QUOTED.sub(_quoted_repl, msg)
+    msg = _QUOTED.sub(_quoted_repl, msg).replace("message_SwitchTalk", "message_Switch*").replace("message_SwitchMonologue", "message_Switch*")
     msg = _NUM.sub("N", msg)
     msg = re.sub(r"\{.*", "{..", msg)
     msg = re.sub(r"\s+", " ", msg).strip()
@@ -514,11 +513,24 @@ class EsResult:
 
 def shape_token(rs: dict) -> str:
     """One decidable token naming the most unusual structural feature of the input (fixed priority order), for signatures."""
-    from explorerscript.ssb_converting.ssb_special_ops import OPS_BRANCH, OPS_CTX, OPS_SWITCH_CASE_MAP, OPS_SWITCH_TEXT_CASE_MAP, OPS_WITH_JUMP_TO_MEM_OFFSET
+    found = shape_features(rs)
+    for tok in SHAPE_PRIORITY:
+        if tok in found:
+            return tok
+    return "straight-line"
+
+
+def shape_features(rs: dict) -> set:
+    """All decidable structural features of the input that the signatures may name."""
+    from explorerscript.ssb_converting.ssb_special_ops import OPS_CTX, OPS_SWITCH_CASE_MAP, OPS_SWITCH_TEXT_CASE_MAP, OPS_WITH_JUMP_TO_MEM_OFFSET
     from gen import ssb
 
     pos = {o[0]: (ri, oi) for ri, r in enumerate(rs["routines"]) for oi, o in enumerate(r["ops"])}
     found = set()
+    try:
+        local = ssb.locally_reachable_mask(rs)
+    except Exception:  # pragma: no cover
+        local = None
     for ri, r in enumerate(rs["routines"]):
         ops = r["ops"]
         if not ops and ri > 0:
@@ -534,6 +546,8 @@ def shape_token(rs: dict) -> str:
                 t = pos.get(ps[OPS_WITH_JUMP_TO_MEM_OFFSET[name]])
                 if t is not None:
                     if t[0] != ri:
+                        if local is not None and not local[t[0]][t[1]]:
+                            found.add("cross-jump-to-op-unreachable-in-its-routine")
                         if t[0] < ri and t[1] == len(rs["routines"][t[0]]["ops"]) - 1:
                             found.add("cross-jump-to-last-op-of-earlier-routine")
                         elif t[1] == 0:
@@ -542,12 +556,10 @@ def shape_token(rs: dict) -> str:
                             found.add("cross-jump-into-routine")
                     elif t[1] <= oi:
                         found.add("backward-jump")
-                    if name == "Jump" or name in OPS_BRANCH or name == "Call" or t != (ri, oi + 1):
-                        tname = rs["routines"][t[0]]["ops"][t[1]][1]
-                        if tname in ssb.CASE_OPS and (t[0] != ri or t[1] != oi + 1 or name not in ssb.CASE_OPS):
-                            found.add("jump-targets-case-op")
                     else:
                         found.add("forward-jump")
+                    if rs["routines"][t[0]]["ops"][t[1]][1] in ssb.CASE_OPS:
+                        found.add("jump-targets-case-op")  # a label separates the case op from its switch / previous case
             if name in ssb.CASE_OPS and not (prev in OPS_SWITCH_CASE_MAP or prev in ssb.CASE_OPS):
                 found.add("case-without-switch")
             if name in OPS_SWITCH_CASE_MAP and nxt not in ssb.CASE_OPS:
@@ -571,14 +583,11 @@ def shape_token(rs: dict) -> str:
             found.add("unreachable-ops")
     except Exception:  # pragma: no cover
         pass
-    for tok in SHAPE_PRIORITY:
-        if tok in found:
-            return tok
-    return "straight-line"
+    return found
 
 
 SHAPE_PRIORITY = (
-    "call", "first-op-jump", "cross-jump-to-last-op-of-earlier-routine", "cross-jump-to-first-op", "cross-jump-into-routine", "case-without-switch", "jump-targets-case-op",
+    "call", "first-op-jump", "cross-jump-to-op-unreachable-in-its-routine", "cross-jump-to-first-op", "cross-jump-to-last-op-of-earlier-routine", "cross-jump-into-routine", "case-without-switch", "jump-targets-case-op",
     "switch-without-case", "text-case-without-message-switch", "message-switch-without-case", "ctx-before-control-op", "hold-not-last",
     "unreachable-ops", "alias", "backward-jump", "message-switch", "switch", "ctx", "forward-jump",
 )
@@ -624,7 +633,7 @@ def wf_space(shard: int, nshards: int, tier: str, seed: int, counter: dict, *, m
     yield from well_formed_only(gen(), counter)
 
 
-ALPHABET_Q4 = ("plain", "ctx", "branch", "jump", "switch", "case", "Return", "Hold")
+ALPHABET_Q4 = ("plain", "branch", "jump", "switch", "case", "Return")
 ALPHABET_Q5 = ("plain", "branch", "jump", "Return")
 
 
@@ -633,7 +642,7 @@ def wf_space_bound(tier: str, scale: float = 1.0) -> str:
     return (
         "well-formed (C02 predicate) routine sets out of: every op-class list with <= 3 ops over {plain, flag_*, ctx, Branch*, Jump, Call, Switch*, "
         "Case*, message_Switch*, CaseText, DefaultText, Return, End, Hold}"
-        + (", 4 ops over the same without flag_*, 5 ops in one routine over {plain, Branch*, Jump, Return}" if thorough else ", 4 ops over {plain, ctx, Branch*, Jump, Switch*, Case*, Return, Hold}")
+        + (", 4 ops over the same without flag_*, 5 ops in one routine over {plain, Branch*, Jump, Return}" if thorough else ", 4 ops over {plain, Branch*, Jump, Switch*, Case*, Return}")
         + " x every in-range jump target (also cross-routine) x 1-2 routines; "
         f"{len(aimed_count())} hand-made shapes x 15 variants; compiler output of 11 fixed + ~1300 exhaustive small + {int((3000 if thorough else 300) * scale)} seeded random "
         "programs, each with 6 kinds of re-layout (leading jump, entry block last, blocks reversed/shuffled, routine split, unreachable ops); "
